@@ -87,6 +87,15 @@ def spec_variants():
     o = speclib.find(sp, "obstacles", 30)
     o.pop("initial_signal_state", None); o.pop("signal_series", None)
     sp["location"] = None
+    # everything optional left at the constructor defaults: unset optional initial-state attributes, a lanelet without types / users / markings
+    for ob in sp["obstacles"]:
+        if "initial_state" in ob:
+            for k in ("acceleration", "yaw_rate", "slip_angle"):
+                ob["initial_state"]["attrs"].pop(k, None)
+    sp["pps"][0]["initial_state"]["attrs"].pop("acceleration", None)
+    l3 = speclib.find(sp, "lanelets", 3)
+    for k in ("types", "users_bidirectional", "users_one_way", "mark_left", "mark_right"):
+        l3.pop(k, None)
     V["defaults"] = sp
     return V
 
